@@ -1304,6 +1304,89 @@ def check_different_grids(run, exe, scratch):
 
 
 # ==========================================================================================
+# an exchange round that a dying walker interrupts, at every point of the round
+# ==========================================================================================
+
+def gen_death(r, cid, big=False):
+    n = r.choice([2, 3, 3, 4] + ([5, 6] if big else []))
+    nb = r.randint(2, 4)
+    F = r.choice([1, 2, 3])
+    T = F * r.randint(1, 3)
+    victim = r.randrange(n)
+    # replica calls of a walker in one round: replica 0 receives n-1 times, sends n-1 times, barrier; the others send, receive, barrier
+    ncalls = 2 * (n - 1) + 1 if victim == 0 else 3
+    steps = [[(r.randint(0, nb - 1), V.dyadic(r, -8, 8)) for _ in range(n)] for _ in range(T + 1)]
+    return {"kind": "death", "id": cid, "n": n, "nd": 1, "nbins": [nb], "freq": F, "T": T, "victim": victim,
+            "die_after": r.randrange(ncalls), "integrate": r.random() < 0.5, "steps": steps}
+
+
+def check_death(run, exe, model, cases, scratch):
+    for c in cases:
+        n, F, T, nb = c["n"], c["freq"], c["T"], c["nbins"][0]
+        run.dist("death:n=%d" % n)
+        run.dist("death:victim=%s" % ("replica0" if c["victim"] == 0 else "other"))
+        run.count(json.dumps([c["steps"], F, c["victim"], c["die_after"]]), True)
+        run.sample({"kind": "death", "n": n, "freq": F, "T": T, "victim": c["victim"], "die_after": c["die_after"]}, cap=6)
+        try:
+            before, after = run_twice(scen.run_death, exe, c, scratch, timeout=15.0)
+        except W.WalkerTimeout as e:
+            run.violation("death:survivor-hangs-or-dies", "shared ABF, walker %d dies at its replica call %d of the round of step %d: a surviving walker "
+                          "did not return from the step (%s)" % (c["victim"], c["die_after"], T, str(e)[:160]), {"kind": "death", "case": c})
+            continue
+        if any(d is None for (_, d) in after.values()):
+            run.violation("death:no-state", "a surviving walker printed no state after the interrupted round", {"kind": "death", "case": c})
+            continue
+        oc = "".join("C" if (w in after and after[w][1]["last_step"] == T) else "A" for w in range(n))
+        run.dist("death:outcome=%s" % ("all-aborted" if "C" not in oc else "all-survivors-committed" if all(oc[w] == "C" for w in after) else "mixed"))
+        # oracle on the implementation alone (1): what a survivor sampled itself is what its grids give back
+        bad = None
+        for w, (stl, d) in sorted(after.items()):
+            cnt = [0] * nb
+            sm = [0.0] * nb
+            for t in range(1, T + 1):
+                b_, f_ = c["steps"][t][w]
+                cnt[b_] += 1
+                sm[b_] += -f_
+            own_c = [o + (g - l) for o, g, l in zip(d["ocnt"], d["cnt"], d["lcnt"])]
+            own_s = [o + (g - l) for o, g, l in zip(d["osum"], d["sum"], d["lsum"])]
+            if own_c != cnt or any(not close(a, b, True) for a, b in zip(own_s, sm)):
+                bad = (w, own_c, cnt, own_s, sm)
+                break
+        if bad:
+            run.violation("death:own-data-corrupted", "shared ABF, %d walkers, walker %d dies at its replica call %d of the round of step %d: walker %d's own "
+                          "samples (local + global - snapshot) read %s, it sampled %s (outcomes %s)" % (n, c["victim"], c["die_after"], T, bad[0], bad[1], bad[2], oc),
+                          {"kind": "death", "case": c, "walker": bad[0]})
+            continue
+        # (2) nobody can have completed the round unless replica 0 did (or died trying to tell the others)
+        if 0 in after and oc[0] == "A" and "C" in oc:
+            run.violation("death:round-completed-without-replica-0", "outcomes %s: a walker completed a round that replica 0 gave up" % oc, {"kind": "death", "case": c})
+            continue
+        # tie: the model's exchange_partial with the outcomes the walkers report
+        tokens = []
+        for t in range(T):
+            if t > 0 and t % F == 0:
+                tokens += ["a,%d" % w for w in range(n)] + ["x,%d" % t]
+            if t >= 1:
+                tokens += ["s,%d,%d,%s" % (w, c["steps"][t][w][0], V.hexf(c["steps"][t][w][1])) for w in range(n)]
+        tokens.append("p,%d,%s" % (T, oc))
+        tokens += ["s,%d,%d,%s" % (w, c["steps"][T][w][0], V.hexf(c["steps"][T][w][1])) for w in sorted(after)]
+        tokens += ["q,%d" % w for w in sorted(after)]
+        rc, mout, err = V.run_lines(model, ["ABF 0 %d %d 1 %d %s" % (n, nb, F, " ".join(tokens))], timeout=60)
+        if rc != 0 or len(mout) != 1:
+            raise V.InfraError("C14 model driver failed: rc=%s %s" % (rc, err[-500:]))
+        mres = parse_model_abf(mout[0])
+        for m, w in zip(mres, sorted(after)):
+            d = dict(after[w][1])
+            if "cnt" not in m:
+                run.mismatch("death", {"case": c, "walker": w}, d, m)
+                break
+            k_ = same_abf(d, m, True)
+            if k_ is not None:
+                run.mismatch("death", {"case": c, "walker": w, "field": k_, "outcomes": oc}, {x: d[x] for x in ("cnt", "sum", "lcnt", "lsum", "ocnt", "osum", "last_step")}, m)
+                break
+
+
+# ==========================================================================================
 # configurations outside the premises of the models: they must be refused, not run
 # ==========================================================================================
 
@@ -1418,6 +1501,7 @@ def run_cases(run, exe, model, cases, scratch):
     check_view(run, exe, model, [c for c in cases if c["kind"] == "view"], scratch)
     check_czar(run, exe, model, [c for c in cases if c["kind"] == "czar"], scratch)
     check_opes(run, exe, model, [c for c in cases if c["kind"] == "opes"], scratch)
+    check_death(run, exe, model, [c for c in cases if c["kind"] == "death"], scratch)
 
 
 def check(run):
@@ -1445,6 +1529,7 @@ def check(run):
         cases += [gen_view(r, "x%d" % i, robust=True) for i in range(nr)]
         cases += [gen_czar(r, "z%d" % i, big) for i in range(8 if quick else 150)]
         cases += [gen_opes(r, "o%d" % i, big) for i in range(8 if quick else 150)]
+        cases += [gen_death(r, "d%d" % i, big) for i in range(6 if quick else 120)]
         run_cases(run, exe, model, cases, scratch)
     finally:
         leftover = V.sh(["pgrep", "-f", exe])[1].split()
